@@ -30,6 +30,18 @@ theorem clone_is_function_of_list (c : RawLru κ ν) (h : c.Inv) : c.cloneImpl =
 
 /-! ## pointer level: any index function, any allocator -/
 
+/-- every history, any index function, any admissible allocator: the pointer-level cache ends in a state that represents
+    the list-level result of the same history (restated from `Lemmas/PtrRun` so that it is audited here) -/
+theorem ptr_level_equals_list_level (alloc : PLru κ ν → Nat) (ha : Admissible alloc) (ops : List (POp κ ν))
+    (p : PLru κ ν) (l : List Nat) (h : Rep p l) :
+    ∃ l' c', Rep (ops.foldl (pstep alloc) p) l' ∧ runOps RawLru.step (p.abs l) (ops.map POp.toRaw) = .ok c' ∧
+      (ops.foldl (pstep alloc) p).abs l' = c' := ptr_refines_history alloc ha ops p l h
+
+/-- each single operation returns at pointer level exactly what it returns at list level -/
+theorem ptr_level_same_answers (alloc : PLru κ ν → Nat) (ha : Admissible alloc) (p : PLru κ ν) (l : List Nat)
+    (h : Rep p l) (o : POp κ ν) : pans alloc p o = lans (p.abs l) o :=
+  (ptr_refines_step alloc ha p l h o).choose_spec.choose_spec.2.2.2
+
 /-- two runs of the same history with different allocators and different (but equally valid) index functions and
     payload placement end in the same abstract cache -/
 theorem allocator_and_index_irrelevant (alloc1 alloc2 : PLru κ ν → Nat) (h1 : Admissible alloc1) (h2 : Admissible alloc2)
